@@ -113,7 +113,7 @@ PROPS["C03"]["runs"] += _M4A + _MISC + _AUD + [
     R("mpeg1video", "pkg/format/rtpmpeg1video", "pkg/format/rtpmpeg1video", ["ZzC03MPEG1Video"], quick_params=_M1V_Q, thorough_params=_M1V_T)]
 PROPS["C06"]["runs"] += [
     R(pkg[3:] + "-default-limit", "pkg/format/" + pkg, "pkg/format/" + pkg, ["ZzC06" + name + "Default"], params={"LMIN": 2 if pkg == "rtph265" else 1},
-      quick_params={"N": 3, "L": 4500}, thorough_params={"N": 4, "L": 9000})
+      quick_params={"N": 3, "L": 4500}, thorough_params={"N": 3, "L": 6000})
     for pkg, name in CODECS_GEN if pkg != "rtpklv"
 ]
 PROPS["C06"]["runs"] += _M4A + _MISC + _AUD + [
